@@ -51,6 +51,7 @@ inductive Op (S T : Type) where
   | rebind (th : KV)
   | editbk (k : String) (v : Rat)
   | attr (key : String)
+  | plot
 
 inductive Out where
   | done
@@ -95,6 +96,7 @@ def step {S T : Type} (A : Api S T) (o : Obj S T) : Op S T → Obj S T × Out
     (o, match o.df with
         | none => .raised
         | some t => match A.col t key with | some v => .column v | none => .raised)
+  | .plot => (o, if o.df.isSome && o.sig.isSome then .done else .raised)      -- draws; `ValueError` before a fit; changes nothing
   | op => ({ o with st := editSettings o.st op }, .done)
 
 def run {S T : Type} (A : Api S T) (o : Obj S T) (ops : List (Op S T)) : Obj S T :=
